@@ -53,6 +53,9 @@ CHECKS = {
     'C15': ('model_checking', 'the real Server._processCfg / SecNode / Attached / MultiEvent / poll thread start-up / shutdown_modules on module sets whose '
             'attachment graph (all graphs with out-degree <= 1 incl. cycles on <= 3/4 modules), declaration order and flags (polling, configured write, '
             'failing init, missing or wrongly typed attachment) are chosen by symbolic selectors; oracle on the event log', '5/C15'),
+    'C10': ('model_checking', 'module sections built with the real Mod/Param DSL, processed by the real Server._processCfg; configured value and '
+            'min/max overrides are symbolic, the kinds of configuration error present in each of two sections are enumerated; oracle: start value, '
+            'described limits, later range checks (symbolic probe), write-once-before-first-poll, rejection with all failing modules reported', '5/C10'),
 }
 NOT_YET = 'check not built yet in this round (planned per DESIGN.md section 5); not claimed until its harness runs clean'
 NOT_APPLICABLE = {}
